@@ -84,6 +84,27 @@ META = {
               'stable_solve falls back per matrix, index-local; MVDR solves stacks as columns. Finite-ness on singular input is NOT decided.',
         note='Trusted: the naming convention of the wrapper itself; exceptions table for front-broadcast / fixed-layout axes.',
         design='DESIGN.md section 3 (C13)'),
+    'C14': dict(
+        technique='static analysis: permutation-provenance rules on term graphs (R-PERM), AST idiom recognisers for the exhaustive arg-max and greedy retire loops (R-SEL c/d)',
+        level='apply_mapping is a pure gather; the inline EM alignment is value preserving with one mapping for affiliation and quadratic form; calculate_mapping of all three aligners '
+              'returns columns of permutation provenance; the greedy assignment meets the retire premises (K arg-max picks over a view-consistent copy, chosen row AND column retired with -inf, '
+              'row -> column, after the finiteness guard); both exhaustive searches enumerate every permutation of the full class count with a strict arg-max from -inf, paired update, no early exit.',
+        note='Assumption: integer score matrices never contain iinfo.min. Trusted: semantics of itertools.permutations and numpy advanced indexing.',
+        design='DESIGN.md section 3 (C14)'),
+    'C15': dict(
+        technique='static analysis: exhaustive arg-max loop recogniser (R-SEL c) + orientation typing of score matrices (einsum structure, transposes, argument order)',
+        level='Optimality clause: complete strict arg-max enumeration with objective sum_k score[k, perm[k]]. Inversion clause, structural part: all score metrics are rows = reference / '
+              'columns = estimate, assignment maps row -> column, apply_mapping gathers the estimate, the oracle wires (mask, reference_mask) and its configured algorithm. '
+              'Exact inversion for every permutation field is NOT decided.',
+        note='Shares rule instances with C14.',
+        design='DESIGN.md section 3 (C15)'),
+    'C16': dict(
+        technique='static analysis: paired-update and composition-chain rules on term graphs (only the net-reordering clause)',
+        level='Only the net-reordering clause is claimed: DHTV applies each per-bin permutation with the same index vector, bin and guard to features and mapping (identity start, self-gather only, '
+              'on a copy, centroid from the current features); the greedy aligner composes adjacent-bin assignments with the composed predecessor in increasing f from an identity column. '
+              'Recovery of a consistent order, identity on consistent masks and plan coverage are NOT decided (no sound static argument in reach).',
+        note='The behavioural clauses of C16 quantify over all masks / all plan configurations; see DESIGN.md section 6.',
+        design='DESIGN.md section 3 (C16)'),
 }
 
 ALL = sorted(META)
